@@ -68,7 +68,7 @@ func genC13(t *rapid.T, w *world.World) caseC13 {
 		e := entryC13{
 			SrcProto: sp, SrcCp: pick(t, l+"/sc", c13Cps[sp]),
 			DstProto: dp, DstCp: pick(t, l+"/dc", c13Cps[dp]),
-			Denom: pick(t, l+"/denom", []string{world.Uusdc, world.Ufoo, world.Gamm, "uswapped", world.IBCVoucher}),
+			Denom: pick(t, l+"/denom", []string{world.Uusdc, world.Ufoo, world.Gamm, "uswapped", world.IBCVoucher, world.OddDenom, world.LongDenom}),
 			In:    pick(t, l+"/in", []string{"0", "1", "1000", "999999999999", "115792089237316195423570985008687907853269984665640564039457584007913129639935"}),
 			Out:   pick(t, l+"/out", []string{"0", "1", "990", "5"}),
 			Count: uint64(rapid.IntRange(1, 1000).Draw(t, l+"/count")),
